@@ -7,6 +7,7 @@
 -/
 import FastPasta.Spec.LinkSrcGen
 import FastPasta.Proofs.StateSrcTie
+import FastPasta.Proofs.FsmSrcTie
 namespace FastPasta
 namespace SrcTie
 open SrcState SrcLink
@@ -466,6 +467,379 @@ theorem preprocess_data_word_eq (cfg : CheckCfg) (v : CdpRunningValidator) (s : 
   obtain ⟨sX, rfl, ha, ho⟩ := dataCore_eq cfg v s c w h hst s' ms hok
   rw [data_unfold]
   exact ⟨abs_data_seen cfg _ sX c ha, ho⟩
+
+/-! ### the dispatcher `check` = `checkWord` (configurations without the readout-frame validator) -/
+
+/-- what no handler touches: the tracker's position fields and the state machine -/
+structure Frame (v v' : CdpRunningValidator) : Prop where
+  pay : v'.f_tracker.f_payload_mem_pos = v.f_tracker.f_payload_mem_pos
+  cnt : v'.f_tracker.f_gbt_word_counter = v.f_tracker.f_gbt_word_counter
+  pad : v'.f_tracker.f_gbt_word_padding_size_bytes = v.f_tracker.f_gbt_word_padding_size_bytes
+  fsm : v'.f_its_state_machine = v.f_its_state_machine
+
+theorem Frame.rfl' (v : CdpRunningValidator) : Frame v v := ⟨rfl, rfl, rfl, rfl⟩
+theorem Frame.trans {a b c : CdpRunningValidator} (h1 : Frame a b) (h2 : Frame b c) : Frame a c :=
+  ⟨h2.pay.trans h1.pay, h2.cnt.trans h1.cnt, h2.pad.trans h1.pad, h2.fsm.trans h1.fsm⟩
+theorem Frame.ite {a b c : CdpRunningValidator} (p : Prop) [Decidable p] (h1 : Frame a b) (h2 : Frame a c) : Frame a (if p then b else c) := by
+  split <;> assumption
+
+theorem frame_report_error (v : CdpRunningValidator) (m : Rs.Str) (w : Bytes) : Frame v (v.report_error m w).2 := ⟨rfl, rfl, rfl, rfl⟩
+theorem frame_report_errors (v : CdpRunningValidator) (m : Rs.Str) (w : Bytes) : Frame v (v.report_errors m w).2 := ⟨rfl, rfl, rfl, rfl⟩
+theorem frame_report_noword (v : CdpRunningValidator) (m : Rs.Str) : Frame v (v.report_noword m).2 := ⟨rfl, rfl, rfl, rfl⟩
+
+theorem frame_preprocess_ihw (v : CdpRunningValidator) (w : Bytes) : Frame v (v.preprocess_ihw w).2 := by
+  unfold CdpRunningValidator.preprocess_ihw
+  refine ⟨?_, ?_, ?_, ?_⟩ <;> (dsimp only; split <;> rfl)
+
+macro "frame_tac" : tactic => `(tactic| (refine ⟨?_, ?_, ?_, ?_⟩ <;> (dsimp only; (repeat' split) <;> rfl)))
+
+theorem frame_preprocess_ddw0 (v : CdpRunningValidator) (w : Bytes) : Frame v (v.preprocess_ddw0 w).2 := by
+  unfold CdpRunningValidator.preprocess_ddw0 CdpRunningValidator.check_rdh_at_ddw0; frame_tac
+theorem frame_preprocess_tdh (v : CdpRunningValidator) (w : Bytes) : Frame v (v.preprocess_tdh w).2 := by
+  unfold CdpRunningValidator.preprocess_tdh; frame_tac
+theorem frame_preprocess_tdt (v : CdpRunningValidator) (w : Bytes) : Frame v (v.preprocess_tdt w).2 := by
+  unfold CdpRunningValidator.preprocess_tdt; frame_tac
+theorem frame_process_cdw (v : CdpRunningValidator) (w : Bytes) : Frame v (v.process_cdw w).2 := by
+  unfold CdpRunningValidator.process_cdw; frame_tac
+theorem frame_check_initial_ihw (v : CdpRunningValidator) (w : Bytes) : Frame v (v.check_rdh_at_initial_ihw w).2 := by
+  unfold CdpRunningValidator.check_rdh_at_initial_ihw; frame_tac
+theorem frame_check_no_cont (v : CdpRunningValidator) (w : Bytes) : Frame v (v.check_tdh_no_continuation w).2 := by
+  unfold CdpRunningValidator.check_tdh_no_continuation; frame_tac
+theorem frame_check_cont (v : CdpRunningValidator) (w : Bytes) : Frame v (v.check_tdh_continuation w).2 := by
+  unfold CdpRunningValidator.check_tdh_continuation; frame_tac
+theorem frame_check_after_done (v : CdpRunningValidator) (w : Bytes) : Frame v (v.check_tdh_by_was_tdt_packet_done_true w).2 := by
+  unfold CdpRunningValidator.check_tdh_by_was_tdt_packet_done_true; frame_tac
+theorem frame_check_interval (v : CdpRunningValidator) (w : Bytes) : Frame v (v.check_tdh_trigger_interval w).2 := by
+  unfold CdpRunningValidator.check_tdh_trigger_interval; frame_tac
+theorem frame_process_ib (v : CdpRunningValidator) (w : Bytes) : Frame v (v.process_ib_data_word w).2 := by
+  unfold CdpRunningValidator.process_ib_data_word; frame_tac
+theorem frame_process_ob (v : CdpRunningValidator) (w : Bytes) : Frame v (v.process_ob_data_word w).2 := by
+  unfold CdpRunningValidator.process_ob_data_word; frame_tac
+theorem frame_dataCore (v : CdpRunningValidator) (w : Bytes) : Frame v (dataCore v w) := by
+  unfold dataCore
+  refine Frame.ite _ (frame_process_cdw v w) ?_
+  dsimp only
+  have h1 : Frame v (if (SrcWords.DataWordSanityChecker.check_any w).isErr
+      then (v.report_error ((Rs.Str.lit true [70]).app (SrcWords.DataWordSanityChecker.check_any w).errStr) w).2 else v) :=
+    Frame.ite _ (frame_report_error v _ w) (Frame.rfl' v)
+  exact Frame.ite _ (h1.trans (frame_process_ib _ w)) (Frame.ite _ (h1.trans (frame_process_ob _ w)) h1)
+theorem frame_preprocess_data_word (v : CdpRunningValidator) (w : Bytes) : Frame v (v.preprocess_data_word w).2 := by
+  rw [data_unfold]
+  exact ⟨(frame_dataCore v w).pay, (frame_dataCore v w).cnt, (frame_dataCore v w).pad, (frame_dataCore v w).fsm⟩
+
+/-- the relation between words (before the word counter is incremented): `Abs` with the tracker and the state machine field by field -/
+structure AbsW (cfg : CheckCfg) (v : CdpRunningValidator) (s : CdpSt) (c : SrcRdh.RdhCru) : Prop where
+  running : v.f_running_checks_enabled = cfg.running
+  period : v.f_trigger_period = cfg.triggerPeriod
+  sod : v.f_tracker.f_is_start_of_data = s.startOfData
+  pay : v.f_tracker.f_payload_mem_pos = s.payloadPos
+  cnt : v.f_tracker.f_gbt_word_counter = s.wordCount
+  slot : 10 + v.f_tracker.f_gbt_word_padding_size_bytes = s.slot
+  pad : v.f_tracker.f_gbt_word_padding_size_bytes ≤ 6
+  fsm : v.f_its_state_machine = s.fsm
+  rdhv : v.f_rdh_validator = ItsRdhValidator.new c
+  rdh : toModel c = s.rdh
+  ihw : v.f_status_words.f_ihw = s.ihw.map ihwOf
+  tdhs : v.f_status_words.f_tdhs = bufOf s.tdh s.prevTdh s.prevInternalTdh
+  tdt : v.f_status_words.f_tdt = s.tdt.map tdtOf
+  ddw0 : v.f_status_words.f_ddw0 = s.ddw0.map ddw0Of
+  cdw : v.f_status_words.f_cdw = s.cdw.map cdwOf
+
+theorem AbsW.toAbs {cfg v s c} (h : AbsW cfg v s c) (h1 : 1 ≤ s.wordCount) (h2 : s.wordCount < 65536)
+    (hb : s.payloadPos + 65536 * 16 < 2^64) : Abs cfg v s c := by
+  refine ⟨h.running, h.period, h.sod, ?_, h.rdhv, h.rdh, h.ihw, h.tdhs, h.tdt, h.ddw0, h.cdw⟩
+  rw [tracker_word_pos v.f_tracker (by rw [h.cnt]; exact h1) (by rw [h.cnt]; exact h2) h.pad (by rw [h.pay]; exact hb),
+    h.pay, h.cnt, h.slot]
+  rfl
+
+/-- back from `Abs` for the state after a handler: the handler kept the tracker's position fields and the state machine (`Frame`),
+    the model's next state kept its own -/
+theorem AbsW.ofAbs {cfg v v' s s' c} (hw : AbsW cfg v s c) (ha : Abs cfg v' s' c) (hf : Frame v v')
+    (e1 : s'.payloadPos = s.payloadPos) (e2 : s'.wordCount = s.wordCount) (e3 : s'.slot = s.slot) (e4 : s'.fsm = s.fsm) :
+    AbsW cfg v' s' c :=
+  ⟨ha.running, ha.period, ha.sod, by rw [hf.pay, hw.pay, e1], by rw [hf.cnt, hw.cnt, e2], by rw [hf.pad, hw.slot, e3],
+   by rw [hf.pad]; exact hw.pad, by rw [hf.fsm, hw.fsm, e4], ha.rdhv, ha.rdh, ha.ihw, ha.tdhs, ha.tdt, ha.ddw0, ha.cdw⟩
+
+theorem fsm_step_src (st : FsmSt) (w : Bytes) :
+    SrcFsm.step st (bAt w 9) (SrcWords.tdh_no_data w) (SrcWords.tdt_packet_done w) = fsmAdvance st w := by
+  rw [tdh_no_data_eq, tdt_packet_done_eq]; exact (C09.fsmAdvance_eq_src st w).symm
+
+/-- the first two steps of `check`: count the word, advance the state machine -/
+theorem check_prefix (cfg : CheckCfg) (v : CdpRunningValidator) (s : CdpSt) (c : SrcRdh.RdhCru) (w : Bytes)
+    (h : AbsW cfg v s c) (h2 : s.wordCount + 1 < 65536) :
+    AbsW cfg { v with f_tracker := { v.f_tracker with f_gbt_word_counter := v.f_tracker.f_gbt_word_counter + 1 },
+                      f_its_state_machine := (fsmAdvance s.fsm w).1 }
+      { s with wordCount := s.wordCount + 1, fsm := (fsmAdvance s.fsm w).1 } c :=
+  ⟨h.running, h.period, h.sod, h.pay, by simp [h.cnt], h.slot, h.pad, rfl, h.rdhv, h.rdh, h.ihw, h.tdhs, h.tdt, h.ddw0, h.cdw⟩
+
+/-- what `check` does after counting the word and advancing the state machine, by the machine's answer -/
+def dispatch (cls : WordClass) (v : CdpRunningValidator) (w : Bytes) : CdpRunningValidator :=
+  match cls with
+  | .dataWord | .cdw => (v.preprocess_data_word w).2
+  | .tdh =>
+    let v := (v.preprocess_tdh w).2
+    if v.f_running_checks_enabled then ((v.check_tdh_no_continuation w).2.check_tdh_trigger_interval w).2 else v
+  | .tdt => (v.preprocess_tdt w).2
+  | .ihw =>
+    let v := (v.preprocess_ihw w).2
+    if v.f_running_checks_enabled then (v.check_rdh_at_initial_ihw w).2 else v
+  | .tdhAfterPacketDone =>
+    let v := (v.preprocess_tdh w).2
+    if v.f_running_checks_enabled then ((v.check_tdh_by_was_tdt_packet_done_true w).2.check_tdh_trigger_interval w).2 else v
+  | .ddw0 => (v.preprocess_ddw0 w).2
+  | .tdhCont =>
+    let v := (v.preprocess_tdh w).2
+    if v.f_running_checks_enabled then (v.check_tdh_continuation w).2 else v
+  | .ihwCont => (v.preprocess_ihw w).2
+  | .errTdhOrDdw0 => ((v.report_error (Rs.Str.lit true [990]) w).2.preprocess_tdh w).2
+  | .errDwOrTdtCdw => ((v.report_error (Rs.Str.lit true [991]) w).2.preprocess_data_word w).2
+  | .errDdw0OrTdhIhw => ((v.report_error (Rs.Str.lit true [992]) w).2.preprocess_ddw0 w).2
+
+theorem check_unfold (v : CdpRunningValidator) (w : Bytes) (hcnt : v.f_tracker.f_gbt_word_counter + 1 < 65536) :
+    (v.check w).2 = dispatch (fsmAdvance v.f_its_state_machine w).2
+      { v with f_tracker := { v.f_tracker with f_gbt_word_counter := v.f_tracker.f_gbt_word_counter + 1 },
+               f_its_state_machine := (fsmAdvance v.f_its_state_machine w).1 } w := by
+  unfold CdpRunningValidator.check CdpRunningValidator.fsm_advance
+  simp only [tracker_incr v.f_tracker hcnt, fsm_step_src]
+  cases hc : (fsmAdvance v.f_its_state_machine w).2 <;>
+    simp only [classResult, dispatch, Rs.ResV.isErr_ok, Rs.ResV.isErr_err, Rs.ResV.okVal_ok, Rs.ResV.errVal_err, beq_iff_eq,
+      Bool.or_eq_true, reduceCtorEq, or_self, or_false, false_or, or_true, true_or, if_true, if_false, Bool.false_eq_true, ite_pair_snd]
+
+/-! model-side frame facts -/
+theorem preTdh_frame (cfg : CheckCfg) (s : CdpSt) (w : Bytes) (hst : cfg.stave = false) :
+    (preTdh cfg s w).1 = replaceTdh s w ∧ (preTdh cfg s w).1.payloadPos = s.payloadPos ∧ (preTdh cfg s w).1.wordCount = s.wordCount ∧
+    (preTdh cfg s w).1.slot = s.slot ∧ (preTdh cfg s w).1.fsm = s.fsm ∧ (preTdh cfg s w).1.tdh = some w := by
+  simp [preTdh, hst, replaceTdh]
+
+theorem preData_frame (cfg : CheckCfg) (s : CdpSt) (w : Bytes) (hst : cfg.stave = false) (s' : CdpSt) (ms : List Msg)
+    (hok : preData cfg s w = .ok (s', ms)) :
+    s'.payloadPos = s.payloadPos ∧ s'.wordCount = s.wordCount ∧ s'.slot = s.slot ∧ s'.fsm = s.fsm := by
+  unfold preData at hok
+  simp only [hst] at hok
+  repeat' (split at hok)
+  all_goals first
+    | (cases hok; exact ⟨rfl, rfl, rfl, rfl⟩)
+    | (simp at hok)
+    | (obtain ⟨rfl, _⟩ := (by simpa using hok : _ ∧ _); exact ⟨rfl, rfl, rfl, rfl⟩)
+
+/-- a report made before a handler: `[E99x]` at the word's position -/
+theorem report_pre (cfg : CheckCfg) (v : CdpRunningValidator) (s : CdpSt) (c : SrcRdh.RdhCru) (w : Bytes) (k : Nat) (h : Abs cfg v s c) :
+    Abs cfg (v.report_error (Rs.Str.lit true [k]) w).2 s c ∧
+    outMsgs (v.report_error (Rs.Str.lit true [k]) w).2.f_out = outMsgs v.f_out ++ [mkErr s (codeStr k) w] := by
+  refine ⟨abs_out cfg v s c _ h, ?_⟩
+  simp [CdpRunningValidator.report_error, outMsgs_append, outMsgs, reportMsgs, mkErr, h.pos, Rs.Str.lit]
+
+/-- the model's `checkWord` after the word has been counted and the state machine advanced -/
+def stepAfter (cfg : CheckCfg) (s : CdpSt) (cls : WordClass) (w : Bytes) : Except PanicSite (CdpSt × List Msg) :=
+  match cls with
+  | .dataWord | .cdw => preData cfg s w
+  | .tdh =>
+    let (s, m) := preTdh cfg s w
+    .ok (s, m ++ (if cfg.running then tdhNoContinuationChecks s w ++ tdhTriggerInterval cfg s else []))
+  | .tdt => preTdt cfg s w
+  | .ihw =>
+    let (s, m) := preIhw s w
+    .ok (s, m ++ (if cfg.running && s.rdh.stopBit != 0 then [mkErr s "E12" w] else []))
+  | .tdhAfterPacketDone =>
+    let (s, m) := preTdh cfg s w
+    let m2 := if !cfg.running then [] else
+      (match s.prevTdh with
+       | some prev => if tdhBc prev > tdhBc w then [mkErr s "E440" w] else []
+       | none => []) ++ tdhTriggerInterval cfg s
+    .ok (s, m ++ m2)
+  | .ddw0 => .ok (preDdw0 cfg s w)
+  | .tdhCont =>
+    let (s, m) := preTdh cfg s w
+    .ok (s, m ++ (if cfg.running then tdhContinuationChecks s w else []))
+  | .ihwCont => .ok (preIhw s w)
+  | .errTdhOrDdw0 =>
+    let (s', m) := preTdh cfg s w
+    .ok (s', mkErr s "E990" w :: m)
+  | .errDwOrTdtCdw =>
+    match preData cfg s w with
+    | .error p => .error p
+    | .ok (s', m) => .ok (s', mkErr s "E991" w :: m)
+  | .errDdw0OrTdhIhw =>
+    let (s', m) := preDdw0 cfg s w
+    .ok (s', mkErr s "E992" w :: m)
+
+theorem checkWord_stepAfter (cfg : CheckCfg) (s : CdpSt) (w : Bytes) :
+    checkWord cfg s w = stepAfter cfg { s with wordCount := s.wordCount + 1, fsm := (fsmAdvance s.fsm w).1 } (fsmAdvance s.fsm w).2 w := by
+  unfold checkWord stepAfter
+  rfl
+
+theorem dispatch_eq (cfg : CheckCfg) (v1 : CdpRunningValidator) (s1 : CdpSt) (c : SrcRdh.RdhCru) (w : Bytes) (cls : WordClass)
+    (hW1 : AbsW cfg v1 s1 c) (hA1 : Abs cfg v1 s1 c) (hst : cfg.stave = false)
+    (s' : CdpSt) (ms : List Msg) (hok : stepAfter cfg s1 cls w = .ok (s', ms)) :
+    AbsW cfg (dispatch cls v1 w) s' c ∧ outMsgs (dispatch cls v1 w).f_out = outMsgs v1.f_out ++ ms := by
+  cases cls
+  case dataWord =>
+    obtain ⟨a, o⟩ := preprocess_data_word_eq cfg v1 s1 c w hA1 hst s' ms hok
+    obtain ⟨e1, e2, e3, e4⟩ := preData_frame cfg s1 w hst s' ms hok
+    exact ⟨AbsW.ofAbs hW1 a (frame_preprocess_data_word v1 w) e1 e2 e3 e4, o⟩
+  case cdw =>
+    obtain ⟨a, o⟩ := preprocess_data_word_eq cfg v1 s1 c w hA1 hst s' ms hok
+    obtain ⟨e1, e2, e3, e4⟩ := preData_frame cfg s1 w hst s' ms hok
+    exact ⟨AbsW.ofAbs hW1 a (frame_preprocess_data_word v1 w) e1 e2 e3 e4, o⟩
+  case errDwOrTdtCdw =>
+    obtain ⟨ar, orr⟩ := report_pre cfg v1 s1 c w 991 hA1
+    simp only [dispatch]
+    simp only [stepAfter] at hok
+    cases hp : preData cfg s1 w with
+    | error p => rw [hp] at hok; cases hok
+    | ok r =>
+      obtain ⟨s2, m2⟩ := r
+      rw [hp] at hok
+      simp only [Except.ok.injEq, Prod.mk.injEq] at hok
+      obtain ⟨rfl, rfl⟩ := hok
+      obtain ⟨a, o⟩ := preprocess_data_word_eq cfg _ s1 c w ar hst s2 m2 hp
+      obtain ⟨e1, e2, e3, e4⟩ := preData_frame cfg s1 w hst s2 m2 hp
+      refine ⟨AbsW.ofAbs hW1 a ((frame_report_error v1 _ w).trans (frame_preprocess_data_word _ w)) e1 e2 e3 e4, ?_⟩
+      rw [o, orr]; simp [codeStr]
+  case errTdhOrDdw0 =>
+    obtain ⟨ar, orr⟩ := report_pre cfg v1 s1 c w 990 hA1
+    obtain ⟨a, o⟩ := preprocess_tdh_eq cfg _ s1 c w ar hst
+    obtain ⟨_, e1, e2, e3, e4, _⟩ := preTdh_frame cfg s1 w hst
+    simp only [stepAfter, Except.ok.injEq, Prod.mk.injEq] at hok
+    obtain ⟨rfl, rfl⟩ := hok
+    refine ⟨AbsW.ofAbs hW1 a ((frame_report_error v1 _ w).trans (frame_preprocess_tdh _ w)) e1 e2 e3 e4, ?_⟩
+    simp only [dispatch]; rw [o, orr]; simp [codeStr]
+  case errDdw0OrTdhIhw =>
+    obtain ⟨ar, orr⟩ := report_pre cfg v1 s1 c w 992 hA1
+    obtain ⟨a, o⟩ := preprocess_ddw0_eq cfg _ s1 c w ar
+    simp only [stepAfter, Except.ok.injEq, Prod.mk.injEq] at hok
+    obtain ⟨rfl, rfl⟩ := hok
+    refine ⟨AbsW.ofAbs hW1 a ((frame_report_error v1 _ w).trans (frame_preprocess_ddw0 _ w)) rfl rfl rfl rfl, ?_⟩
+    simp only [dispatch]; rw [o, orr]; simp [codeStr]
+  case ddw0 =>
+    obtain ⟨a, o⟩ := preprocess_ddw0_eq cfg v1 s1 c w hA1
+    simp only [stepAfter, Except.ok.injEq] at hok
+    subst_vars
+    cases hok
+    exact ⟨AbsW.ofAbs hW1 a (frame_preprocess_ddw0 v1 w) rfl rfl rfl rfl, o⟩
+  case ihwCont =>
+    obtain ⟨a, o⟩ := preprocess_ihw_eq cfg v1 s1 c w hA1
+    simp only [stepAfter, Except.ok.injEq] at hok
+    cases hok
+    exact ⟨AbsW.ofAbs hW1 a (frame_preprocess_ihw v1 w) rfl rfl rfl rfl, o⟩
+  case tdt =>
+    obtain ⟨s2, m2, hp, a, o⟩ := preprocess_tdt_eq cfg v1 s1 c w hA1 hst
+    simp only [stepAfter] at hok
+    rw [hp] at hok
+    have hp' := hp
+    simp only [preTdt, hst, Bool.false_and, Bool.false_eq_true, if_false, Except.ok.injEq, Prod.mk.injEq] at hp'
+    cases hok
+    obtain ⟨rfl, _⟩ := hp'
+    exact ⟨AbsW.ofAbs hW1 a (frame_preprocess_tdt v1 w) rfl rfl rfl rfl, o⟩
+  case ihw =>
+    obtain ⟨a, o⟩ := preprocess_ihw_eq cfg v1 s1 c w hA1
+    simp only [stepAfter, Except.ok.injEq, Prod.mk.injEq] at hok
+    obtain ⟨rfl, rfl⟩ := hok
+    simp only [dispatch, a.running]
+    by_cases hR : cfg.running = true
+    · obtain ⟨a3, o3⟩ := check_rdh_at_initial_ihw_eq cfg _ _ c w a
+      simp only [hR, if_true, Bool.true_and]
+      refine ⟨AbsW.ofAbs hW1 a3 ((frame_preprocess_ihw v1 w).trans (frame_check_initial_ihw _ w)) rfl rfl rfl rfl, ?_⟩
+      rw [o3, o, List.append_assoc]
+    · simp only [Bool.not_eq_true] at hR
+      simp only [hR, Bool.false_eq_true, if_false, Bool.false_and, List.append_nil]
+      exact ⟨AbsW.ofAbs hW1 a (frame_preprocess_ihw v1 w) rfl rfl rfl rfl, o⟩
+  case tdh =>
+    obtain ⟨a, o⟩ := preprocess_tdh_eq cfg v1 s1 c w hA1 hst
+    obtain ⟨_, e1, e2, e3, e4, htdh⟩ := preTdh_frame cfg s1 w hst
+    simp only [stepAfter, Except.ok.injEq, Prod.mk.injEq] at hok
+    obtain ⟨rfl, rfl⟩ := hok
+    simp only [dispatch, a.running]
+    by_cases hR : cfg.running = true
+    · obtain ⟨a3, o3⟩ := check_tdh_no_continuation_eq cfg _ _ c w a htdh
+      obtain ⟨a4, o4⟩ := check_tdh_trigger_interval_eq cfg _ _ c w a3 (Or.inl (by rw [htdh]; rfl))
+      simp only [hR, if_true]
+      refine ⟨AbsW.ofAbs hW1 a4 (((frame_preprocess_tdh v1 w).trans (frame_check_no_cont _ w)).trans (frame_check_interval _ w)) e1 e2 e3 e4, ?_⟩
+      rw [o4, o3, o]; simp [List.append_assoc]
+    · simp only [Bool.not_eq_true] at hR
+      simp only [hR, Bool.false_eq_true, if_false, List.append_nil]
+      exact ⟨AbsW.ofAbs hW1 a (frame_preprocess_tdh v1 w) e1 e2 e3 e4, o⟩
+  case tdhAfterPacketDone =>
+    obtain ⟨a, o⟩ := preprocess_tdh_eq cfg v1 s1 c w hA1 hst
+    obtain ⟨_, e1, e2, e3, e4, htdh⟩ := preTdh_frame cfg s1 w hst
+    simp only [stepAfter, Except.ok.injEq, Prod.mk.injEq] at hok
+    obtain ⟨rfl, rfl⟩ := hok
+    simp only [dispatch, a.running]
+    by_cases hR : cfg.running = true
+    · obtain ⟨a3, o3⟩ := check_tdh_after_packet_done_eq cfg _ _ c w a htdh
+      obtain ⟨a4, o4⟩ := check_tdh_trigger_interval_eq cfg _ _ c w a3 (Or.inl (by rw [htdh]; rfl))
+      simp only [hR, if_true, Bool.not_true, Bool.false_eq_true, if_false]
+      refine ⟨AbsW.ofAbs hW1 a4 (((frame_preprocess_tdh v1 w).trans (frame_check_after_done _ w)).trans (frame_check_interval _ w)) e1 e2 e3 e4, ?_⟩
+      rw [o4, o3, o]; simp [List.append_assoc]
+    · simp only [Bool.not_eq_true] at hR
+      simp only [hR, Bool.false_eq_true, if_false, Bool.not_false, if_true, List.append_nil]
+      exact ⟨AbsW.ofAbs hW1 a (frame_preprocess_tdh v1 w) e1 e2 e3 e4, o⟩
+  case tdhCont =>
+    obtain ⟨a, o⟩ := preprocess_tdh_eq cfg v1 s1 c w hA1 hst
+    obtain ⟨_, e1, e2, e3, e4, htdh⟩ := preTdh_frame cfg s1 w hst
+    simp only [stepAfter, Except.ok.injEq, Prod.mk.injEq] at hok
+    obtain ⟨rfl, rfl⟩ := hok
+    simp only [dispatch, a.running]
+    by_cases hR : cfg.running = true
+    · obtain ⟨a3, o3⟩ := check_tdh_continuation_eq cfg _ _ c w a htdh
+      simp only [hR, if_true]
+      refine ⟨AbsW.ofAbs hW1 a3 ((frame_preprocess_tdh v1 w).trans (frame_check_cont _ w)) e1 e2 e3 e4, ?_⟩
+      rw [o3, o]; simp [List.append_assoc]
+    · simp only [Bool.not_eq_true] at hR
+      simp only [hR, Bool.false_eq_true, if_false, List.append_nil]
+      exact ⟨AbsW.ofAbs hW1 a (frame_preprocess_tdh v1 w) e1 e2 e3 e4, o⟩
+
+/-- **`CdpRunningValidator::check` = `checkWord`**, for every word, in every configuration without the readout-frame validator:
+    if the source validator stands for the model state (`AbsW`) and the model's step does not stop at a panic site, the source's step
+    leaves a validator that stands for the model's next state, having sent exactly the model's messages -/
+theorem check_eq (cfg : CheckCfg) (v : CdpRunningValidator) (s : CdpSt) (c : SrcRdh.RdhCru) (w : Bytes)
+    (h : AbsW cfg v s c) (hst : cfg.stave = false) (h2 : s.wordCount + 1 < 65536) (hb : s.payloadPos + 65536 * 16 < 2^64)
+    (s' : CdpSt) (ms : List Msg) (hok : checkWord cfg s w = .ok (s', ms)) :
+    AbsW cfg (v.check w).2 s' c ∧ outMsgs (v.check w).2.f_out = outMsgs v.f_out ++ ms := by
+  rw [check_unfold v w (by rw [h.cnt]; exact h2), h.fsm]
+  have hW1 := check_prefix cfg v s c w h h2
+  have hA1 := hW1.toAbs (by simp) (by simp; omega) hb
+  rw [checkWord_stepAfter] at hok
+  exact dispatch_eq cfg _ _ c w _ hW1 hA1 hst s' ms hok
+
+/-! ### `set_current_rdh`: what survives from packet to packet, and the fresh tracker -/
+/-- the packet-independent part of the relation: configuration, state machine, stored status words -/
+structure AbsR (cfg : CheckCfg) (v : CdpRunningValidator) (s : CdpSt) : Prop where
+  running : v.f_running_checks_enabled = cfg.running
+  period : v.f_trigger_period = cfg.triggerPeriod
+  fsm : v.f_its_state_machine = s.fsm
+  ihw : v.f_status_words.f_ihw = s.ihw.map ihwOf
+  tdhs : v.f_status_words.f_tdhs = bufOf s.tdh s.prevTdh s.prevInternalTdh
+  tdt : v.f_status_words.f_tdt = s.tdt.map tdtOf
+  ddw0 : v.f_status_words.f_ddw0 = s.ddw0.map ddw0Of
+  cdw : v.f_status_words.f_cdw = s.cdw.map cdwOf
+
+theorem AbsW.toAbsR {cfg v s c} (h : AbsW cfg v s c) : AbsR cfg v s :=
+  ⟨h.running, h.period, h.fsm, h.ihw, h.tdhs, h.tdt, h.ddw0, h.cdw⟩
+
+/-- a freshly constructed validator (`new`: default state machine, empty status-word container) stands for the model's initial state -/
+theorem absR_init (cfg : CheckCfg) (tr : CdpTracker) (rv : ItsRdhValidator) :
+    AbsR cfg { f_running_checks_enabled := cfg.running, f_trigger_period := cfg.triggerPeriod, f_its_state_machine := SrcFsm.initial,
+               f_tracker := tr, f_rdh_validator := rv, f_status_words := StatusWordContainer.new_const, f_out := [] } {} :=
+  ⟨rfl, rfl, rfl, rfl, rfl, rfl, rfl, rfl⟩
+
+/-- the model state at the start of a packet -/
+def startPkt (s : CdpSt) (off : Nat) (r : Rdh) : CdpSt :=
+  { s with payloadPos := off + 64, wordCount := 0, slot := (if r.dataFormat == 0 then 16 else 10), startOfData := true, rdh := r }
+
+/-- `set_current_rdh(rdh, offset)` = `setCurrentRdh` (without the stave bookkeeping): new tracker at `offset + 64`, counter 0, slot
+    size by the header's data format, start-of-data set; everything else kept -/
+theorem set_current_rdh_eq (cfg : CheckCfg) (v : CdpRunningValidator) (s : CdpSt) (c : SrcRdh.RdhCru) (off : Nat)
+    (h : AbsR cfg v s) (hst : cfg.stave = false) (hoff : off + 64 < 2^64) :
+    setCurrentRdh cfg s off (toModel c) = .ok (startPkt s off (toModel c)) ∧
+    AbsW cfg (v.set_current_rdh c off).2 (startPkt s off (toModel c)) c := by
+  obtain ⟨t1, t2, t3, t4⟩ := tracker_new c off hoff
+  refine ⟨by simp [setCurrentRdh, hst, startPkt], ?_⟩
+  simp only [CdpRunningValidator.set_current_rdh, startPkt]
+  refine ⟨h.running, h.period, t4, t1, t2, t3, ?_, h.fsm, rfl, rfl, h.ihw, h.tdhs, h.tdt, h.ddw0, h.cdw⟩
+  show (CdpTracker.new c off).f_gbt_word_padding_size_bytes ≤ 6
+  have := t3
+  split at this <;> omega
 
 end SrcTie
 end FastPasta
